@@ -309,17 +309,24 @@ class Report:
                 return k
         return None
 
+    def known_counts(self):
+        return getattr(self, "_kc", {})
+
     def violation(self, key, what, replay):
         """key: dict identifying the failing input class; replay: json-able object."""
         k = self.known_match(key)
         if k is not None:
+            self._kc = getattr(self, "_kc", {})
+            self._kc[k["what"]] = self._kc.get(k["what"], 0) + 1
             if k not in self.known_hit:
                 self.known_hit.append(k)
                 log(f"KNOWN-FINDING: property={self.prop} {k['what']}")
             return False
         if len(self.violations) >= 8:
             self.violations.append((key, what, self.violations[-1][2]))
-            log(f"  (further violation, no separate replay file) key={json.dumps(key)} {what[:200]}")
+            self.extra = getattr(self, "extra", {})
+            kk = json.dumps(key, sort_keys=True)
+            self.extra[kk] = self.extra.get(kk, 0) + 1
             return True
         d = os.path.join(ROOT, "replays", self.prop)
         os.makedirs(d, exist_ok=True)
@@ -351,9 +358,12 @@ class Report:
         if self.drift:
             ev["coverage"]["spec_drift"] = self.drift
         ev["coverage"]["known_findings_reproduced"] = [k["what"] for k in self.known_hit]
+        ev["coverage"]["known_finding_hits"] = getattr(self, "_kc", {})
         os.makedirs(os.path.join(ROOT, "evidence"), exist_ok=True)
         with open(os.path.join(ROOT, "evidence", f"{self.prop}.json"), "w") as f:
             json.dump(ev, f, indent=1)
+        for kk, n in sorted(getattr(self, "extra", {}).items()):
+            log(f"  (+{n} further violations without separate replay file) key={kk}")
         log(f"[{self.prop}] {self.tier}: violations={len(self.violations)} known={len(self.known_hit)} "
             f"drift={len(self.drift)} wall={ev['wall_s']}s")
         return 1 if self.violations else 0
